@@ -310,6 +310,9 @@ structure PState where
   inflight : Option Inflight := none
   taken : List Snap := []
   failed : List Nat := []
+  /-- the blocklist directory does not exist (fresh install): `New` does not create it,
+  `refreshRemote` does one second after start-up; until then `os.CreateTemp` fails -/
+  dirMissing : Bool := false
   /-- staging files stranded in the directory by earlier crashes (nothing removes
   `local.tmp.*`; every directory walk parses them) -/
   orphans : List (List Str) := []
@@ -337,6 +340,8 @@ inductive Step
   /-- `readBlocklists()`: the directory walk of `refreshRemote` (scheduled by `New`
   one second after start-up) or of any other caller, at an arbitrary moment -/
   | dirLoad
+  /-- `os.Mkdir(BlockListDir)` at the head of `refreshRemote` -/
+  | mkdir
 deriving Repr, DecidableEq
 
 /-- error path of `persist`: temp file removed, `saveMu` released, nothing else changes. -/
@@ -375,7 +380,7 @@ def step (s : PState) : Step → PState
       | some snap =>
         let s' := { s with pending := s.pending.eraseIdx i }
         if snap.version ≠ 0 ∧ snap.version ≤ s.lastPersisted then s'      -- stale: dropped
-        else if ok then { s' with inflight := some { snap := snap, written := [], stage := .writing } }
+        else if (ok && !s.dirMissing) then { s' with inflight := some { snap := snap, written := [], stage := .writing } }
         else { s' with failed := snap.version :: s'.failed }             -- CreateTemp failed
   | .write ok =>
     match s.inflight with
@@ -417,6 +422,7 @@ def step (s : PState) : Step → PState
     -- reads `local` and the staging files; writes NO file (it only deletes `*.tmp` downloads)
     let mem' := dirLoadMem s.mem s.main (s.orphans ++ strandedNow s)
     { s with mem := mem', dirty := s.dirty || decide (mem' ≠ s.mem) }
+  | .mkdir => { s with dirMissing := false }
 
 def run (s : PState) (steps : List Step) : PState := steps.foldl step s
 
